@@ -89,7 +89,7 @@ def cargo_env(target, toolchain=None):
 
 CRATE_DIR = {
     'astria-sequencer': 'crates/astria-sequencer', 'astria-conductor': 'crates/astria-conductor', 'astria-core': 'crates/astria-core',
-    'astria-merkle': 'crates/astria-merkle', 'astria-sequencer-relayer': 'crates/astria-sequencer-relayer', 'astria-composer': 'crates/astria-composer',
+    'astria-merkle': 'crates/astria-merkle', 'astria-core-address': 'crates/astria-core-address', 'astria-core-crypto': 'crates/astria-core-crypto', 'astria-sequencer-relayer': 'crates/astria-sequencer-relayer', 'astria-composer': 'crates/astria-composer',
 }
 
 
